@@ -452,7 +452,7 @@ func exercise(c *runner.Ctx, in []byte, name, desc string, tool, full bool) {
 	}
 	if pick(1, 10) {
 		m.do("decode-file", "DecodeFile[1-byte reader]", func() {
-		_, err := mp4.DecodeFile(oneByteReader{bytes.NewReader(in)})
+			_, err := mp4.DecodeFile(oneByteReader{bytes.NewReader(in)})
 			if err == nil {
 				m.accepted++
 			}
